@@ -37,6 +37,11 @@ pub fn run(ctx: &Ctx, walk: bool) -> i32 {
             if !walk && fam.name == "M2-structural-big" {
                 continue;
             }
+            // walk-based check in the extra profiles: field sweeps of the generated bases only (the corpus
+            // sweeps are walked in `checked`; C04 loads them in all three profiles)
+            if walk && *prof != "checked" && fam.name.starts_with("M2-field-") && !["-b1", "-b2", "-b3", "-b4", "-d1i"].iter().any(|s| fam.name.ends_with(s)) {
+                continue;
+            }
             let fname = if *prof == "checked" { fam.name.clone() } else { format!("{}@{}", fam.name, prof) };
             if !ctx.wants_family(&fname) {
                 continue;
